@@ -21,7 +21,18 @@ import (
 // (3) end-to-end over the real socket: stream command + user events fired through the
 // agent, query command answered by the node itself.
 
-const c25Wait = 60 * time.Second
+const c25Wait = 10 * time.Second
+
+// c25Broken: one wait already ran into its (generous) deadline — the implementation does not
+// do what every later wait expects either, so those give up quickly instead of stalling the run.
+var c25Broken bool
+
+func c25Deadline() time.Duration {
+	if c25Broken {
+		return 30 * time.Millisecond
+	}
+	return c25Wait
+}
 
 type c25ES struct {
 	rec      *agent.VerifRecorder
@@ -32,9 +43,10 @@ type c25ES struct {
 }
 
 func c25WaitFor(cond func() bool) bool {
-	dl := time.Now().Add(c25Wait)
+	dl := time.Now().Add(c25Deadline())
 	for !cond() {
 		if time.Now().After(dl) {
+			c25Broken = true
 			return false
 		}
 		time.Sleep(50 * time.Microsecond)
@@ -390,7 +402,7 @@ func c25E2EStream(filter string, seq uint64, names []string) (string, int) {
 	var out []string
 	other := 0
 	live := false
-	dl := time.Now().Add(c25Wait)
+	dl := time.Now().Add(c25Deadline())
 	for !live {
 		if err := env.agent.UserEvent("fin", []byte("probe"), false); err != nil {
 			return "ERR probe " + err.Error(), -1
@@ -410,6 +422,7 @@ func c25E2EStream(filter string, seq uint64, names []string) (string, int) {
 		case <-time.After(2 * time.Millisecond):
 		}
 		if time.Now().After(dl) {
+			c25Broken = true
 			return "TIMEOUT stream never became live", -1
 		}
 	}
@@ -445,7 +458,8 @@ func c25E2EStream(filter string, seq uint64, names []string) (string, int) {
 			out = append(out, fmt.Sprintf("%d:u:%s:%s", r.seq, hexs(nm), pl))
 		case err := <-errs:
 			return "ERR read " + err.Error(), -1
-		case <-time.After(c25Wait):
+		case <-time.After(c25Deadline()):
+			c25Broken = true
 			return "TIMEOUT waiting for the end marker; got " + c24Join(out), other
 		}
 	}
